@@ -705,6 +705,10 @@ func Run(c *vh.Check, o c18k.Opts) {
 			c.Violation(fmt.Sprintf("O:%s:chain1=%v:honest-chain-rejected", p1.Name, chains[3]), map[string]any{"error": err.Error()})
 			continue
 		}
+		if N >= 4 && c.Want("O") && o.Wants("O") {
+			mc0 := mainCommons
+			units = append(units, unit{fmt.Sprintf("%s:reused-powers", p1.Name), func() { reusedPowers(c, o, N, p1, mc0) }})
+		}
 		for _, k := range o.Ks {
 			ci := pickCircuit(N, k)
 			if ci == nil {
@@ -748,5 +752,28 @@ func Run(c *vh.Check, o c18k.Opts) {
 	ok := c.Par(len(units), func(i int) { units[i].f() })
 	if !ok {
 		c.Cap(curveName + ": deadline before all (phase, N, k) units were started")
+	}
+}
+
+// reusedPowers: generic powers of tau reused for a SMALLER circuit (phase-1 domain N strictly larger
+// than the circuit's own domain): the keys extracted from honest chains must still prove and verify.
+func reusedPowers(c *vh.Check, o c18k.Opts, N int, p1 *c18k.Phase, mainCommons mpcsetup.SrsCommons) {
+	for _, k := range o.Ks {
+		for _, n2 := range []int{N / 2, N / 4} {
+			if n2 < 1 {
+				continue
+			}
+			ci := pickCircuit(n2, k)
+			if ci == nil || int(ecc.NextPowerOfTwo(uint64(ci.nbCons))) >= N {
+				continue
+			}
+			mc := mainCommons
+			q := phase2(N, ci, &mc, fmt.Sprintf(":reused(%d constraints)", ci.nbCons), false)
+			for _, ch := range [][]string{{}, {"a1"}} {
+				checkKeys(c, fmt.Sprintf("%s:chain1=%v", q.Name, chains[3]), N, ci, &mc, q, ch)
+			}
+			c.Outcome(fmt.Sprintf("O:reused-powers:N=%d:circuit-domain=%d", N, ecc.NextPowerOfTwo(uint64(ci.nbCons))))
+			c.Count("reused-powers", fmt.Sprintf("%s:N=%d:k=%d:constraints=%d", curveName, N, k, ci.nbCons), 1)
+		}
 	}
 }
